@@ -264,6 +264,216 @@ Proof.
   eapply Forall2_weaken; [|exact H1]. intros a b (A1 & A2 & A3). lia.
 Qed.
 
+(** ** The same bound against a specification that does NOT look at the model
+
+    [ostep] is what an observer of the connection computes from each call and its RETURN VALUE
+    only (plus the perspective): which transport parameters the peer has shown to the connection
+    so far ([o_cur]: the last set, remembered ones included), for every stream that was
+    successfully opened (the returned stream ID tells its class, RFC 9000 2.1 / 18.2) the largest
+    limit any of those parameter sets — from the moment they were SHOWN, not from the moment the
+    implementation applies them — or a MAX_STREAM_DATA gave it, and the largest initial_max_data /
+    MAX_DATA. A successful 0-RTT rejection voids the streams and the connection limit. *)
+Record ospec := mkOS { o_cur : option tparams; o_lims : list (Z * Z); o_clim : Z;
+                       o_stale : bool (* 0-RTT was rejected and the handshake's parameters have not arrived yet *) }.
+
+Definition o_raise (client : bool) (p : tparams) (il : Z * Z) : Z * Z :=
+  (fst il, Z.max (snd il) (class_limit client (fst il) p)).
+
+Definition o_params (client : bool) (o : ospec) (p : tparams) : ospec :=
+  mkOS (Some p) (map (o_raise client p) (o_lims o)) (Z.max (o_clim o) (tp_md p)) false.
+
+Definition ostep (client : bool) (o : ospec) (op : cop) (r : cret) : ospec :=
+  match op with
+  | KRestore bl br uni md | KParams bl br uni md => o_params client o (mkTP bl br uni md)
+  | KReject => match r with [0] => mkOS (o_cur o) [] 0 true | _ => o end
+  | KOpen _ =>
+      match r, o_cur o with
+      | [1; id], Some p => mkOS (o_cur o) (o_lims o ++ [(id, class_limit client id p)]) (o_clim o) (o_stale o)
+      | _, _ => o
+      end
+  | KMaxStreamData i v => mkOS (o_cur o) (updn (o_lims o) (Z.to_nat i) (fun il => (fst il, Z.max (snd il) v))) (o_clim o) (o_stale o)
+  | KMaxData v => mkOS (o_cur o) (o_lims o) (Z.max (o_clim o) v) (o_stale o)
+  | KComplete | KWrite _ _ | KDrain => o
+  end.
+
+Fixpoint corun (client : bool) (c : cconn) (o : ospec) (ops : list cop) : cconn * ospec :=
+  match ops with
+  | [] => (c, o)
+  | op :: r => let '(c1, x) := cstep c op in corun client c1 (ostep client o op x) r
+  end.
+
+(** After a 0-RTT rejection the remembered parameters are void; the handshake always delivers the
+    server's real parameters before it completes and before any stream can be opened again
+    (handleTransportParameters precedes handleHandshakeComplete). Histories are required to
+    respect that order. *)
+Definition op_wf (o : ospec) (op : cop) : Prop :=
+  o_stale o = true -> match op with KComplete | KOpen _ => False | _ => True end.
+
+Fixpoint cowf (client : bool) (c : cconn) (o : ospec) (ops : list cop) : Prop :=
+  match ops with
+  | [] => True
+  | op :: r => op_wf o op /\ cowf client (fst (cstep c op)) (ostep client o op (snd (cstep c op))) r
+  end.
+
+(** the model-side bookkeeping [g] (which applies parameters when the implementation does) never
+    exceeds the observer's [o] *)
+Record Dom (c : cconn) (g : ghost) (o : ospec) : Prop := mkDom {
+  d_cur : o_cur o = cc_pp c;
+  d_ids : map cs_id (cc_streams c) = map fst (o_lims o);
+  d_le : Forall2 (fun l il => l <= snd il) (g_lims g) (o_lims o);
+  d_cl : o_stale o = false -> forall p, o_cur o = Some p ->
+         Forall (fun il => class_limit (cc_client c) (fst il) p <= snd il) (o_lims o) /\ tp_md p <= o_clim o;
+  d_clim : g_clim g <= o_clim o }.
+
+Lemma raise_dom client p : forall ls lg ol,
+  map cs_id ls = map fst ol -> Forall2 (fun l il => l <= snd il) lg ol ->
+  Forall2 (fun l il => l <= snd il)
+    (map (fun sl => Z.max (snd sl) (class_limit client (cs_id (fst sl)) p)) (combine ls lg))
+    (map (o_raise client p) ol).
+Proof.
+  induction ls as [|s ls IH]; intros lg ol Hid Hle; destruct ol as [|il ol]; cbn in *; try discriminate.
+  - inversion Hle; subst. constructor.
+  - inversion Hle as [|l ? lg' ? Hl Hle']; subst. inversion Hid as [[Hi Hid']]. cbn.
+    constructor; [cbn; rewrite Hi; lia|]. apply IH; auto.
+Qed.
+
+Lemma raise_ids client p ls : map cs_id (map (raise_outgoing client p) ls) = map cs_id ls.
+Proof.
+  induction ls as [|s ls IH]; cbn; auto. rewrite IH. f_equal.
+  unfold raise_outgoing. destruct (class_of client (cs_id s)); reflexivity.
+Qed.
+
+Lemma o_raise_ids client p ol : map fst (map (o_raise client p) ol) = map fst ol.
+Proof. induction ol as [|il ol IH]; cbn; auto. rewrite IH. reflexivity. Qed.
+
+Lemma o_raise_cl client p ol :
+  Forall (fun il => class_limit client (fst il) p <= snd il) (map (o_raise client p) ol).
+Proof. induction ol; cbn; constructor; auto. cbn. lia. Qed.
+
+Lemma updn_map {A B} (g : A -> B) (l : list A) i f : (forall x, g (f x) = g x) -> map g (updn l i f) = map g l.
+Proof. intros H. revert i. induction l; intros [|i]; cbn; auto; rewrite ?H, ?IHl; auto. Qed.
+
+Lemma drain_all_ids ls : forall conn i l1 c1 es bs,
+  drain_all ls conn i = (l1, c1, es, bs) -> map cs_id l1 = map cs_id ls.
+Proof.
+  induction ls as [|s ls IH]; intros conn i l1 c1 es bs H; cbn in H.
+  - inversion H; reflexivity.
+  - destruct (drain_stream s conn) as [[[s1 cA] e] blk] eqn:E1.
+    destruct (drain_all ls cA (i + 1)) as [[[r1 cB] es'] bs'] eqn:E2. inversion H; subst.
+    cbn. rewrite (IH _ _ _ _ _ _ E2). f_equal.
+    unfold drain_stream, b_isNewlyBlocked in E1. destruct s as [id fc0 pend]. cbn in *.
+    brk; inversion E1; subst; reflexivity.
+Qed.
+
+Lemma Forall_updn {A} (P : A -> Prop) (l : list A) i f : Forall P l -> (forall x, P x -> P (f x)) -> Forall P (updn l i f).
+Proof. intros H; revert i; induction H; intros [|i] Hf; cbn; constructor; auto. Qed.
+
+Ltac domsame D1 D2 D3 D4 D5 :=
+  constructor; [congruence | exact D2 | exact D3
+               | (intros Hst q Hq; cbn in *; try match goal with E : cc_client _ = _ |- _ => rewrite ?E end; apply D4; auto)
+               | exact D5].
+
+Lemma cstep_Dom c g o op : CInv c g -> Dom c g o -> op_wf o op ->
+  Dom (fst (cstep c op)) (ghstep c g op) (ostep (cc_client c) o op (snd (cstep c op))) /\
+  cc_client (fst (cstep c op)) = cc_client c.
+Proof.
+  intros HI [D1 D2 D3 D4 D5] Hwf. unfold op_wf in Hwf.
+  assert (Hraise : forall p, Dom (apply_params c p) (gh_apply c g p) (o_params (cc_client c) o p)).
+  { intros p. constructor; cbn.
+    - reflexivity.
+    - rewrite raise_ids, o_raise_ids. exact D2.
+    - apply raise_dom; auto.
+    - intros _ q Hq. inversion Hq; subst q. split; [apply o_raise_cl|lia].
+    - lia. }
+  destruct op; cbn [cstep ghstep ostep].
+  - (* KRestore *) split; [apply Hraise|reflexivity].
+  - (* KParams *) destruct (cc_client c) eqn:Ec; cbn [fst snd];
+      [|split; [exact (Hraise (mkTP bl br uni md))|cbn; auto]].
+    split; [|cbn; auto]. constructor; cbn.
+    + reflexivity.
+    + rewrite o_raise_ids. exact D2.
+    + clear - D3. induction D3; cbn; constructor; auto. cbn. lia.
+    + intros _ q Hq. inversion Hq; subst q. rewrite ?Ec. split; [apply o_raise_cl|cbn; lia].
+    + lia.
+  - (* KComplete *) destruct (o_stale o) eqn:Est; [exfalso; apply Hwf; reflexivity|].
+    destruct (cc_pp c) as [p|] eqn:Ep; cbn [fst snd]; [|split; [domsame D1 D2 D3 D4 D5|auto]].
+    destruct (cc_client c) eqn:Ec; [|split; [domsame D1 D2 D3 D4 D5|auto]].
+    split; [|cbn; auto]. destruct (D4 eq_refl p D1) as [Dcl Dmd].
+    constructor; cbn.
+    + exact D1.
+    + rewrite raise_ids. exact D2.
+    + (* applying the parameters the peer had already shown cannot exceed the observer's limits *)
+      rewrite ?Ec. clear - D2 D3 Dcl. revert D2 D3 Dcl. generalize (cc_streams c) (g_lims g) (o_lims o).
+      induction l as [|s ls IH]; intros lg ol Hid Hle Hcl.
+      * destruct ol; [|discriminate Hid]. inversion Hle; subst. constructor.
+      * destruct ol as [|il ol]; [discriminate Hid|].
+        inversion Hle as [|l0 ? lg' ? Hl Hle']; subst. inversion Hcl as [|? ? Hc1 Hc2]; subst.
+        inversion Hid as [[Hi Hid']]. cbn. constructor; [cbn; rewrite Hi; lia|]. apply IH; auto.
+    + intros _ q Hq. rewrite ?Ec. apply D4; auto.
+    + lia.
+  - (* KReject *) destruct (c_reset (cc_conn c)) as [conn1 err] eqn:E. cbn [fst snd]. destruct err; cbn [fst snd].
+    + split; [domsame D1 D2 D3 D4 D5|auto].
+    + split; [|auto]. constructor; cbn; auto; try lia; try (intros Hst; discriminate Hst).
+  - (* KOpen *) destruct (o_stale o) eqn:Est; [exfalso; apply Hwf; reflexivity|].
+    destruct (cc_pp c) as [p|] eqn:Ep; cbn [fst snd].
+    2:{ cbn. split; [domsame D1 D2 D3 D4 D5|auto]. }
+    destruct ((kind =? 2) || cc_applied c); cbn [fst snd].
+    2:{ cbn. split; [domsame D1 D2 D3 D4 D5|auto]. }
+    rewrite D1. split; [|auto]. destruct (D4 eq_refl p D1) as [Dcl Dmd]. constructor; cbn; auto.
+    + rewrite !map_app, D2. reflexivity.
+    + apply Forall2_app; auto. constructor; [cbn; lia|constructor].
+    + intros _ q Hq. inversion Hq; subst q.
+      split; auto. apply Forall_app; split; auto. constructor; [cbn; lia|constructor].
+  - (* KWrite *) split; [|auto]. constructor; cbn; auto. rewrite updn_map; auto.
+  - (* KMaxStreamData *) split; [|auto]. constructor; cbn; auto.
+    + rewrite !updn_map; auto.
+    + apply updn_Forall2; auto. cbn. intros; lia.
+    + intros Hst p Hp. destruct (D4 Hst p Hp) as [Dcl Dmd]. split; auto.
+      apply Forall_updn; auto. cbn. intros; lia.
+  - (* KMaxData *) split; [|auto]. constructor; cbn; auto.
+    + intros Hst p Hp. destruct (D4 Hst p Hp). split; auto. lia.
+    + lia.
+  - (* KDrain *) destruct (drain_all (cc_streams c) (cc_conn c) 0) as [[[l1 conn1] ends] blks] eqn:E.
+    destruct (b_isNewlyBlocked conn1) as [conn2 [b v]]. cbn [fst snd]. split; [|auto].
+    constructor; cbn; auto. rewrite (drain_all_ids _ _ _ _ _ _ _ E). exact D2.
+Qed.
+
+Lemma corun_spec ops : forall client c g o, cc_client c = client -> Forall cop_ok ops -> CInv c g -> Dom c g o ->
+  cowf client c o ops ->
+  let c' := fst (corun client c o ops) in let o' := snd (corun client c o ops) in
+  exists g', CInv c' g' /\ Dom c' g' o'.
+Proof.
+  induction ops as [|op ops IH]; intros client c g o Hc Hok HI HD Hwf; cbn.
+  - exists g. auto.
+  - inversion Hok; subst. destruct Hwf as [Hw1 Hw2].
+    destruct (cstep_Dom c g o op HI HD Hw1) as [HD' Hc'].
+    pose proof (cstep_CInv c g op H1 HI) as HI'.
+    destruct (cstep c op) as [c1 x] eqn:E. cbn [fst snd] in *.
+    apply (IH _ c1 (ghstep c g op) _ Hc'); auto.
+Qed.
+
+(** C04 (a) at the connection glue, against the observer: for every well-ordered history every
+    stream that was opened (its ID as returned) has sent at most the observer's limit for it,
+    and all streams together at most the observer's connection limit. *)
+Theorem connglue_within_observed_limit client ops : Forall cop_ok ops ->
+  cowf client (cg_init client) (mkOS None [] 0 false) ops ->
+  let c := fst (corun client (cg_init client) (mkOS None [] 0 false) ops) in
+  let o := snd (corun client (cg_init client) (mkOS None [] 0 false) ops) in
+  Forall2 (fun s il => cs_id s = fst il /\ 0 <= bytesSent (cs_fc s) <= snd il) (cc_streams c) (o_lims o) /\
+  sumf fSentC (cc_streams c) = bytesSent (cc_conn c) /\ bytesSent (cc_conn c) <= o_clim o.
+Proof.
+  intros Hok Hwf c o.
+  assert (HD0 : Dom (cg_init client) (mkGh [] 0) (mkOS None [] 0 false)).
+  { constructor; cbn; auto; try lia. intros _ p Hp. discriminate. }
+  destruct (corun_spec ops client (cg_init client) _ _ eq_refl Hok (CInv_init client) HD0 Hwf) as (g' & [H1 H2 H3 H4] & [D1 D2 D3 D4 D5]).
+  fold c in H1, H2, H3, D2. fold o in D2, D3, D5. repeat split; try lia.
+  clear - H1 D2 D3. revert H1 D2 D3. generalize (cc_streams c) (g_lims g') (o_lims o).
+  induction l as [|s ls IH]; intros lg ol HS Hid Hle.
+  - destruct ol; [constructor|discriminate Hid].
+  - destruct ol as [|il ol]; [discriminate Hid|]. inversion HS as [|? l0 ? lg' (A1 & A2 & A3) HS']; subst.
+    inversion Hle; subst. inversion Hid. constructor; [split; auto; lia|]. apply (IH lg'); auto.
+Qed.
+
 (** Example = the first table case of the connglue unit (client; bidi_local 100, bidi_remote 30,
     uni 60): each class stops exactly at ITS limit and reports STREAM_DATA_BLOCKED there. *)
 Definition cg_ex : list cop :=
@@ -293,3 +503,9 @@ Proof.
   intros H (H1 & H2 & H3) Hc. destruct s as [id fc pend]. cbn in *.
   brk; inversion H; subst; cbn in *; repeat split; intros; try lia.
 Qed.
+
+Lemma connglue_example_observer :
+  cowf true (cg_init true) (mkOS None [] 0 false) cg_ex /\
+  o_lims (snd (corun true (cg_init true) (mkOS None [] 0 false) cg_ex)) = [(0, 150); (2, 151); (1, 152)] /\
+  o_clim (snd (corun true (cg_init true) (mkOS None [] 0 false) cg_ex)) = 5000.
+Proof. split; [cbn; unfold op_wf; cbn; repeat split; intros; discriminate|]. vm_compute. split; reflexivity. Qed.
